@@ -138,6 +138,10 @@ def _ownership(ctx, repo) -> None:
 
 def check(ctx) -> None:
     repo = ctx.repo
+    ctx.rule("C32.namespace", "OWNERSHIP: the namespace dict of an execution is created inside _build_namespace and is not stored on the executor", floor=1)
+    _fresh_namespace(ctx, repo)
+    ctx.rule("C32.proxy", "SIBLING: every single-call method of the tracer proxy forwards to the wrapped tracer's method of the same name", floor=20)
+    _proxy_fidelity(ctx, repo)
     ctx.rule("C32.early", "every ExecutionTracer method that writes the trace is wrapped by _early_return (disabled -> return; then check()); undecorated private writers are only called from wrapped methods", floor=14)
     ctx.rule("C32.wrapper", "_early_return tests is_disabled() and calls check() before the wrapped function; check() raises TracingAbortedException when the current thread is not the owner; stop() revokes ownership", floor=4)
     ctx.rule("C32.ownership", "ABSINT: __enter__ / __exit__ / stop / check of ExecutionTracer interpreted over schedules of two execution threads and the executor: check() aborts exactly the threads that do not own the tracer, and an abandoned thread that unwinds later does not revoke the ownership of the thread that runs by then", floor=6)
@@ -328,3 +332,58 @@ def check(ctx) -> None:
     ctx.check("C32.timeout", th[0] if th else ex, ok, "the execution thread is not a daemon thread: an abandoned thread keeps the process alive", what="execution thread is a daemon")
     q = [n for n in own_nodes(ex) if isinstance(n, ast.AnnAssign) and "Queue" in norm(n.annotation)]
     ctx.check("C32.timeout", q[0] if q else ex, len(q) == 1 and "Queue()" in norm(q[0].value), "the result queue is not created per execution: a late result of an abandoned thread could be read by a later execution", what="fresh result queue per execution")
+
+
+def _proxy_fidelity(ctx, repo) -> None:
+    """InstrumentationExecutionTracer is the object executions enter and leave the tracer through: a method that consists
+    of one call on the wrapped tracer forwards to the method of the same name (so guards that live in the wrapped method -
+    only the owning thread may stop the tracer in __exit__ - are not bypassed)."""
+    TRM = "pynguin.instrumentation.tracer"
+    cls = repo.cls(TRM, "InstrumentationExecutionTracer")
+    n = 0
+    for name, fn in repo.methods(cls).items():
+        body = [s for s in fn.body if not (isinstance(s, ast.Expr) and isinstance(s.value, ast.Constant))]
+        calls = [c for s in body for c in ast.walk(s) if isinstance(c, ast.Call) and isinstance(c.func, ast.Attribute) and norm(c.func.value) == "self._tracer"]
+        if len(body) != 1 or len(calls) != 1:
+            continue
+        n += 1
+        ctx.analysed(fn)
+        ctx.check("C32.proxy", calls[0], calls[0].func.attr == name, f"InstrumentationExecutionTracer.{name} forwards to `{norm(calls[0].func)}` instead of the wrapped tracer's `{name}`: what the wrapped method guards against is bypassed - an abandoned thread that wakes up and unwinds through `with tracer:` stops the tracer that a later test's thread owns, and that test comes back as a timeout with an empty trace", what=f"{name} forwards to the wrapped {name}", stmt=f"[proxy] {name}")
+    if n < 20:
+        raise AnalysisError(f"C32.proxy: only {n} forwarding methods found in InstrumentationExecutionTracer (confirmed by reading: more than 20)")
+
+
+def _fresh_namespace(ctx, repo) -> None:
+    """Each execution gets its own namespace dict: what _build_namespace returns is created in that call (a display, dict(),
+    a copy) and is neither read from nor stored on the executor - a statement of an abandoned test that finishes late binds
+    its variable in its own dict, not in the one a later test is using."""
+    EXE = "pynguin.testcase.execution"
+    fn = repo.try_func(EXE, "TestCaseExecutor._build_namespace")
+    if fn is None:
+        raise AnalysisError("anchor vanished: TestCaseExecutor._build_namespace")
+    ctx.analysed(fn)
+
+    def fresh(e) -> bool:
+        if isinstance(e, (ast.Dict, ast.DictComp)):
+            return True
+        if isinstance(e, ast.Call) and (norm(e.func) in ("dict", "copy.copy", "copy.deepcopy") or (isinstance(e.func, ast.Attribute) and e.func.attr == "copy")):
+            return True
+        if isinstance(e, ast.BinOp) and isinstance(e.op, ast.BitOr):
+            return fresh(e.left) or fresh(e.right)
+        return False
+
+    assigns = {}
+    for s in own_nodes(fn):
+        if isinstance(s, (ast.Assign, ast.AnnAssign)) and s.value is not None:
+            for t in (s.targets if isinstance(s, ast.Assign) else [s.target]):
+                if isinstance(t, ast.Name):
+                    assigns.setdefault(t.id, []).append(s.value)
+    stored = [s for s in own_nodes(fn) if isinstance(s, (ast.Assign, ast.AnnAssign)) and any(isinstance(t, (ast.Attribute, ast.Subscript)) and norm(t).startswith("self.") for t in (s.targets if isinstance(s, ast.Assign) else [s.target]))]
+    rets = [r for r in own_nodes(fn) if isinstance(r, ast.Return) and r.value is not None]
+    if not rets:
+        raise AnalysisError("C32.namespace: _build_namespace returns nothing")
+    for r in rets:
+        v = r.value
+        ok = fresh(v) or (isinstance(v, ast.Name) and v.id in assigns and all(fresh(x) for x in assigns[v.id]))
+        leaked = [norm(s)[:60] for s in stored if isinstance(v, ast.Name) and v.id in {x.id for x in ast.walk(s.value) if isinstance(x, ast.Name)}]
+        ctx.check("C32.namespace", r, ok and not leaked, f"_build_namespace returns `{norm(v)}`, which is {'kept on the executor (' + '; '.join(leaked) + ')' if leaked else 'not created in this call'}: executions share one globals / locals dict, so a statement of an abandoned (timed-out) test that finishes late rebinds a variable of the test that runs now (`'float' object has no attribute ...` in a later result)", what="the namespace of an execution is created per call and not kept", stmt="[namespace] fresh per execution")
